@@ -271,6 +271,10 @@ func (m *ScaledNumberType) GetValue() float64 {
 	if m.Scale != nil {
 		scale = float64(*m.Scale)
 	}
+	if scale < 0 {
+		// dividing by the (exact) power of ten avoids the representation error of 10^-n
+		return float64(*m.Number) / math.Pow(10, -scale)
+	}
 	return float64(*m.Number) * math.Pow(10, scale)
 }
 
@@ -289,7 +293,7 @@ func NewScaledNumberType(value float64) *ScaledNumberType {
 		numberOfDecimals = 4
 	}
 
-	numberValue := NumberType(math.Trunc(value * math.Pow(10, float64(numberOfDecimals))))
+	numberValue := NumberType(math.Round(value * math.Pow(10, float64(numberOfDecimals))))
 	m.Number = &numberValue
 
 	var scaleValue ScaleType
